@@ -247,7 +247,7 @@ def plan_threshold(rng, cfg, shared_ok=False, run_index=None):
             cfg["mkl"] = min(cfg["mkl"], 8)
         if w * d > 4096:
             cfg["n_events"] = min(cfg["n_events"], 16)
-            cfg["n_nodes"] = min(cfg["n_nodes"], 2)
+            cfg["n_nodes"] = 2
             _fill_keys(rng, cfg, thr)
     elif dim == "table_bytes" and C <= (1 << 25) and fam in CMS:
         base_cells = C // itemsize
@@ -257,7 +257,7 @@ def plan_threshold(rng, cfg, shared_ok=False, run_index=None):
         cfg["width"], cfg["depth"] = max(1, -(-cells // d)), d
         if cells > 4096:
             cfg["n_events"] = min(cfg["n_events"], 12)
-            cfg["n_nodes"] = min(cfg["n_nodes"], 2)
+            cfg["n_nodes"] = 2
             _fill_keys(rng, cfg, thr)
     elif dim == "shm_multiple" and C <= (1 << 16) and fam != "hll":
         # shape whose shared-memory payload (tables + 16 bookkeeping bytes) is an exact multiple of C
